@@ -768,6 +768,16 @@ class Runner:
         n0 = len(self.findings)
         self.compare_states(prop, i)
         self.check_invariants(i)
+        if what == "expand" and targets and len(self.findings) == n0:
+            # an expansion request lifts the addressed subsystem's block by exactly one level
+            # (label -> vector -> density matrix; a density matrix stays)
+            sid0 = st["targets"][0]
+            lb = next((b["level"] for b in before if sid0 in b["members"]), None)
+            la = next((b["level"] for b in snapshot_blocks(w) if sid0 in b["members"]), None)
+            in_ps = any(sid0 in b["members"] and b["kind"] == "ps" for b in before)
+            # (CompositeEnvelope.expand only addresses product spaces; other subsystems are ignored by design)
+            if lb is not None and la is not None and la != min(lb + 1, 2) and (st.get("entry", "state") != "ce" or in_ps):
+                self.findings.append(Finding("C08", f"expand of subsystem {sid0} via {st.get('entry', 'state')}: representation level {lb} -> {la}, expected {min(lb + 1, 2)}", i))
         if what == "new_composite" and len(self.findings) > n0:
             # bookkeeping went wrong in a merge while two different Fock subsystems hold equal values:
             # which subsystems a call registers must not depend on that (C18)
